@@ -307,9 +307,8 @@ func (w *inotify) remove(name string) error {
 
 	for _, wd := range wds {
 		_, err := unix.InotifyRmWatch(w.fd, wd)
-		if err != nil {
-			// TODO: Perhaps it's not helpful to return an error here in every
-			// case; the only two possible errors are:
+		if err != nil && !errors.Is(err, unix.EINVAL) {
+			// The only two possible errors are:
 			//
 			// EBADF, which happens when w.fd is not a valid file descriptor of
 			// any kind.
@@ -318,7 +317,8 @@ func (w *inotify) remove(name string) error {
 			// not a valid watch descriptor. Watch descriptors are invalidated
 			// when they are removed explicitly or implicitly; explicitly by
 			// inotify_rm_watch, implicitly when the file they are watching is
-			// deleted.
+			// deleted. In that case the kernel watch is already gone, which is
+			// what we wanted: not an error.
 			return err
 		}
 	}
